@@ -211,6 +211,15 @@ class C10(Check):
                 ids = sorted(rng.sample(range(start, min(end, start + 400) + 1), min(5, min(end, start + 400) - start + 1)))
                 plan["skip"][str(s)] = ids
             plan["payload"] = rng.choice([None, None, "00", "0102"]) if scanned != 0x2E else rng.choice(["00", "0102", "ffffffff"])
+        # ... and services the ECU does not implement but answers with garbage (a reply of another service, a truncated one)
+        plan["garble"] = []
+        if plan["scanner"] == "services" and rng.random() < 0.2:
+            for _ in range(rng.choice([1, 2])):
+                s_ = rng.choice(sorted(int(x) for x in plan["model"]))
+                impl = {int(k_) for k_ in plan["model"][str(s_)]}
+                k_ = rng.choice([x for x in range(1, 0x3E) if x not in impl and x not in (0x10, 0x11, 0x22, 0x27)])
+                junk = rng.choice([bytes([0x62, 0xF1, 0x90, 0xAA]), bytes([0x7F, (k_ + 1) & 0xFF, 0x10]), bytes([0x7F]), bytes([(k_ + 0x41) & 0xFF, 0x00])])
+                plan["garble"].append([s_, k_, junk.hex()])
         # identifiers answered busyRepeatRequest the first k times (the client repeats the request up to 3 times)
         plan["busy_first"] = []
         if plan["scanner"] == "identifiers" and rng.random() < 0.3:
@@ -262,6 +271,7 @@ class C10(Check):
         model = {int(s): {int(k): v for k, v in sv.items()} for s, sv in plan["model"].items()}
         ecu = ModelECU(plan["ecu_seed"], model, {"p_identifier": plan["p_identifier"], "p_correct_payload_format": plan["p_format"]})
         ecu.quirks = {(s_, k_): n_ for s_, k_, n_ in plan.get("quirks") or []}
+        ecu.garble = {(s_, k_): bytes.fromhex(j_) for s_, k_, j_ in plan.get("garble") or []}
         for did, k in plan.get("busy_first") or []:
             for pdu in self._id_probes(plan, did):
                 ecu.busy_first[pdu] = k
@@ -448,7 +458,14 @@ class C10(Check):
             if resp_ids:
                 violation(res, "C10/probes", "C10/probes:response-ids-probed", f"response ids {sorted(map(hex, resp_ids))[:8]} were probed although not asked for")
         unreachable = plan["sessions"] is not None and len(scanned) < len([s for s in plan["sessions"] if not (s in skip and skip[s] is None)])
-        want_exit = 1 if unreachable else 0
+        # a reply that cannot belong to the probe is reported as a problem of the scan (exit code 1), never as a finding
+        garbled = any(
+            sess == gs and gk not in (set(skip.get(key) or []) if key in skip else set()) and (plan["scan_response_ids"] or not gk & 0x40)
+            for key, sess in scanned for gs, gk, _ in plan.get("garble") or []
+        )
+        if garbled:
+            bump(res["faults"], "unimplemented_service_answers_garbage")
+        want_exit = 1 if unreachable or garbled else 0
         if out["exit"] != want_exit and not aborted:
             violation(res, "C10/exit", f"C10/exit:services:{out['exit']}-want-{want_exit}", f"exit code {out['exit']}, expected {want_exit} (sessions {plan['sessions']}, entered {[s for _, s in scanned]})")
         res["nontrivial"] = n_found > 0 and (n_not > 0 or unreachable)
